@@ -1,15 +1,23 @@
-//! Map layer: opens a generated map-shaped datafile with `map::Reader` and calls every accessor.
-//! Each call is projected to {f, a, out: ok|err|panic, idx: [{k, v}]} where `idx` lists every
-//! index the reader handed out (data / image / envelope / sound indices, layer ranges).  The
-//! events are judged by MapTrace.tla.
+//! Map layer: opens a generated map-shaped datafile with `map::Reader` and calls every accessor and
+//! every item struct of `map::format`.
+//!
+//! Each accessor call is projected to {f, a, out: ok|err|panic, val, idx}: `val` is the returned
+//! value in the vocabulary of spec/datafile/Map.tla (sequences of integers, None = -1; see the
+//! comments at the operators there), `idx` lists every index the reader handed out (data / image /
+//! envelope / sound indices, layer ranges).  Each item struct (`MapItem*::from_slice` ...) is
+//! projected to {f, a, x, r: some|none|short, val}.  The values are compared with what TLC computed
+//! from Map.tla for the same case (`exp`, `parts`); the calls are also recorded for MapTrace.tla
+//! (no panic/hang, indices in range).
 use crate::{geti, write_layout};
-use libtw2_map::format;
+use libtw2_map::format::{self, EnvpointExt, MapItemExt};
 use libtw2_map::reader::{self, LayerTilemapType, LayerType};
 use serde_json::{json, Value};
-use std::collections::BTreeSet;
+use std::collections::{BTreeMap, BTreeSet};
 use std::io::{BufRead, Write};
 use std::path::Path;
 use vh_common::{guarded, last_panic_location};
+
+type Idx = Vec<(&'static str, i64)>;
 
 struct Calls {
     v: Vec<Value>,
@@ -17,21 +25,21 @@ struct Calls {
 }
 
 impl Calls {
-    /// Runs one accessor call under catch_unwind + watchdog; `f` returns Ok(indices) or Err(()).
-    fn call<F: FnOnce() -> Result<Vec<(&'static str, i64)>, String>>(&mut self, name: &str, arg: i64, f: F) -> bool {
+    /// Runs one accessor call under catch_unwind + watchdog; `f` returns Ok((value, indices)) or Err.
+    fn call<F: FnOnce() -> Result<(Value, Idx), String>>(&mut self, name: &str, arg: i64, f: F) -> bool {
         match guarded(20_000, f) {
-            Ok(Ok(idx)) => {
-                self.v.push(json!({"f": name, "a": arg, "out": "ok",
+            Ok(Ok((val, idx))) => {
+                self.v.push(json!({"f": name, "a": arg, "out": "ok", "val": val,
                     "idx": idx.iter().map(|(k, v)| json!({"k": k, "v": v})).collect::<Vec<_>>()}));
                 true
             }
             Ok(Err(_e)) => {
-                self.v.push(json!({"f": name, "a": arg, "out": "err", "idx": []}));
+                self.v.push(json!({"f": name, "a": arg, "out": "err", "val": [], "idx": []}));
                 false
             }
             Err(msg) => {
                 let loc = crate::rel_loc(&last_panic_location());
-                self.v.push(json!({"f": name, "a": arg, "out": "panic", "idx": []}));
+                self.v.push(json!({"f": name, "a": arg, "out": "panic", "val": [], "idx": []}));
                 self.panics.push(json!({"f": name, "a": arg, "msg": msg, "loc": loc}));
                 false
             }
@@ -43,20 +51,310 @@ fn e<T: std::fmt::Debug>(x: T) -> String {
     format!("{:?}", x)
 }
 
-fn opt(k: &'static str, o: Option<usize>, out: &mut Vec<(&'static str, i64)>) {
+fn opt(k: &'static str, o: Option<usize>, out: &mut Idx) {
     if let Some(i) = o {
         out.push((k, i as i64));
     }
 }
+
+fn o2i(o: Option<usize>) -> i64 {
+    o.map(|x| x as i64).unwrap_or(-1)
+}
+
+fn bytes_val(b: &[u8]) -> Vec<i64> {
+    b.iter().map(|&x| x as i64).collect()
+}
+
+fn group_val(g: &reader::Group) -> Vec<i64> {
+    let mut v = vec![
+        g.offset_x as i64,
+        g.offset_y as i64,
+        g.parallax_x as i64,
+        g.parallax_y as i64,
+        g.layer_indices.start as i64,
+        g.layer_indices.end as i64,
+    ];
+    match g.clipping {
+        Some(c) => v.extend_from_slice(&[1, c.x as i64, c.y as i64, c.width as i64, c.height as i64]),
+        None => v.extend_from_slice(&[0, 0, 0, 0, 0]),
+    }
+    v.extend(bytes_val(&g.name));
+    v
+}
+
+fn tilemap_flags(t: &LayerTilemapType) -> i64 {
+    match t {
+        LayerTilemapType::Normal(_) => 0,
+        LayerTilemapType::Game(_) => 1,
+        LayerTilemapType::RaceTeleport(..) => 2,
+        LayerTilemapType::RaceSpeedup(..) => 4,
+        LayerTilemapType::DdraceFront(..) => 8,
+        LayerTilemapType::DdraceSwitch(..) => 16,
+        LayerTilemapType::DdraceTune(..) => 32,
+    }
+}
+
+fn layer_val(l: &reader::Layer) -> Vec<i64> {
+    let mut v = vec![l.detail as i64];
+    match l.t {
+        LayerType::Quads(q) => {
+            v.extend_from_slice(&[3, q.num_quads as i64, q.data as i64, o2i(q.image)]);
+            v.extend(bytes_val(&q.name));
+        }
+        LayerType::DdraceSounds(s) => {
+            v.extend_from_slice(&[10, s.num_sources as i64, s.data as i64, o2i(s.sound), s.legacy as i64]);
+            v.extend(bytes_val(&s.name));
+        }
+        LayerType::Tilemap(t) => {
+            v.extend_from_slice(&[2, t.width as i64, t.height as i64, tilemap_flags(&t.type_)]);
+            match t.type_ {
+                LayerTilemapType::Normal(n) => {
+                    v.extend_from_slice(&[n.color.red as i64, n.color.green as i64, n.color.blue as i64, n.color.alpha as i64]);
+                    match n.color_env_and_offset {
+                        Some((env, off)) => v.extend_from_slice(&[env as i64, off as i64]),
+                        None => v.extend_from_slice(&[-1, 0]),
+                    }
+                    v.extend_from_slice(&[o2i(n.image), n.data as i64]);
+                }
+                LayerTilemapType::Game(d) => v.push(d as i64),
+                LayerTilemapType::RaceTeleport(d, z)
+                | LayerTilemapType::RaceSpeedup(d, z)
+                | LayerTilemapType::DdraceFront(d, z)
+                | LayerTilemapType::DdraceSwitch(d, z)
+                | LayerTilemapType::DdraceTune(d, z) => v.extend_from_slice(&[d as i64, z as i64]),
+            }
+            v.extend(bytes_val(&t.name));
+        }
+    }
+    v
+}
+
+trait TileFields {
+    fn fields(&self, out: &mut Vec<i64>);
+}
+impl TileFields for format::Tile {
+    fn fields(&self, out: &mut Vec<i64>) {
+        out.extend_from_slice(&[self.index as i64, self.flags as i64, self.skip as i64, self.reserved as i64]);
+    }
+}
+impl TileFields for format::TeleTile {
+    fn fields(&self, out: &mut Vec<i64>) {
+        out.extend_from_slice(&[self.number as i64, self.index as i64]);
+    }
+}
+impl TileFields for format::SpeedupTile {
+    fn fields(&self, out: &mut Vec<i64>) {
+        out.extend_from_slice(&[self.force as i64, self.max_speed as i64, self.index as i64, self.padding as i64,
+                                self.angle.get() as i64]);
+    }
+}
+impl TileFields for format::SwitchTile {
+    fn fields(&self, out: &mut Vec<i64>) {
+        out.extend_from_slice(&[self.number as i64, self.index as i64, self.flags as i64, self.delay as i64]);
+    }
+}
+impl TileFields for format::TuneTile {
+    fn fields(&self, out: &mut Vec<i64>) {
+        out.extend_from_slice(&[self.number as i64, self.index as i64]);
+    }
+}
+
+fn raw_val<T: TileFields>(tiles: &[T]) -> Value {
+    let mut v = Vec::new();
+    for t in tiles {
+        t.fields(&mut v);
+    }
+    json!(v)
+}
+
+/// << rows, columns >> followed by the tiles at (0,0), (0,1), ... (row by row).  (A macro: the
+/// array type of the `ndarray` crate is not named, the harness does not depend on it.)
+macro_rules! array_val {
+    ($a:expr) => {{
+        let a = $a;
+        let (rows, cols) = a.dim();
+        let mut v = vec![rows as i64, cols as i64];
+        for y in 0..rows {
+            for x in 0..cols {
+                a[(y, x)].fields(&mut v);
+            }
+        }
+        json!(v)
+    }};
+}
+
+// ------------------------------------------------------------------ item structs of map::format
+
+fn part<T: format::MapItem, F: Fn(&T) -> Vec<i64>>(
+    out: &mut Vec<Value>,
+    redundant_ok: &mut bool,
+    name: &str,
+    k: usize,
+    slice: &[i32],
+    fields: F,
+) {
+    let (r, val) = match T::from_slice(slice) {
+        Ok(Some(x)) => ("some", fields(x)),
+        Ok(None) => ("none", vec![]),
+        Err(format::TooShort) => ("short", vec![]),
+    };
+    // the three other entry points must agree with from_slice
+    let r2 = match T::from_slice_rest(slice) {
+        Ok(Some((x, rest))) => ("some", fields(x), rest.len() as i64),
+        Ok(None) => ("none", vec![], -1),
+        Err(format::TooShort) => ("short", vec![], -1),
+    };
+    let mut copy = slice.to_vec();
+    let r3 = match T::from_slice_mut(&mut copy) {
+        Ok(Some(x)) => ("some", fields(x)),
+        Ok(None) => ("none", vec![]),
+        Err(format::TooShort) => ("short", vec![]),
+    };
+    let mut copy2 = slice.to_vec();
+    let r4 = match T::from_slice_rest_mut(&mut copy2) {
+        Ok(Some((x, rest))) => ("some", fields(x), rest.len() as i64),
+        Ok(None) => ("none", vec![], -1),
+        Err(format::TooShort) => ("short", vec![], -1),
+    };
+    let rest_len = if r == "some" { slice.len() as i64 - T::sum_len() as i64 } else { -1 };
+    if (r2.0, &r2.1, r2.2) != (r, &val, rest_len) || (r3.0, &r3.1) != (r, &val) || (r4.0, &r4.1, r4.2) != (r, &val, rest_len) {
+        *redundant_ok = false;
+    }
+    out.push(json!({"f": name, "a": k, "x": 0, "r": r, "val": val}));
+}
+
+fn i32s_of<T: libtw2_datafile::OnlyI32>(x: &[T]) -> Vec<i64> {
+    // projection only: the envelope point structs have private fields
+    let n = std::mem::size_of_val(x) / 4;
+    let p = x.as_ptr() as *const i32;
+    (0..n).map(|i| unsafe { *p.add(i) } as i64).collect()
+}
+
+fn parts_of_item(out: &mut Vec<Value>, ok: &mut bool, k: usize, type_id: u16, d: &[i32]) {
+    use format::*;
+    part::<MapItemCommonV0, _>(out, ok, "CommonV0", k, d, |x| vec![x.version as i64]);
+    match type_id {
+        MAP_ITEMTYPE_VERSION => part::<MapItemVersionV1, _>(out, ok, "VersionV1", k, d, |_| vec![]),
+        MAP_ITEMTYPE_INFO => {
+            part::<MapItemInfoV1, _>(out, ok, "InfoV1", k, d, |x| {
+                vec![x.author as i64, x.version as i64, x.credits as i64, x.license as i64]
+            });
+            part::<MapItemInfoV2, _>(out, ok, "InfoV2", k, d, |x| vec![x.settings as i64]);
+            part::<MapItemInfoV1ExtraRace, _>(out, ok, "InfoV1ExtraRace", k, d, |x| vec![x.settings as i64]);
+        }
+        MAP_ITEMTYPE_IMAGE => {
+            part::<MapItemImageV1, _>(out, ok, "ImageV1", k, d, |x| {
+                vec![x.width as i64, x.height as i64, x.external as i64, x.name as i64, x.data as i64]
+            });
+            part::<MapItemImageV2, _>(out, ok, "ImageV2", k, d, |x| vec![x.format as i64]);
+        }
+        MAP_ITEMTYPE_ENVELOPE => {
+            part::<MapItemEnvelopeV1Legacy, _>(out, ok, "EnvelopeV1Legacy", k, d, |x| {
+                vec![x.channels as i64, x.start_points as i64, x.num_points as i64, x._name as i64]
+            });
+            part::<MapItemEnvelopeV1, _>(out, ok, "EnvelopeV1", k, d, |x| {
+                let mut v = vec![x.channels as i64, x.start_points as i64, x.num_points as i64];
+                v.extend(x.name.iter().map(|&y| y as i64));
+                v
+            });
+            part::<MapItemEnvelopeV2, _>(out, ok, "EnvelopeV2", k, d, |x| vec![x.synchronized as i64]);
+            if let Ok(Some(x)) = MapItemEnvelopeV1::from_slice(d) {
+                out.push(json!({"f": "EnvelopeV1.name", "a": k, "x": 0, "r": "some", "val": x.name_get().to_vec()}));
+                let _ = format!("{:?}", x);
+            }
+        }
+        MAP_ITEMTYPE_GROUP => {
+            part::<MapItemGroupV1, _>(out, ok, "GroupV1", k, d, |x| {
+                vec![x.offset_x as i64, x.offset_y as i64, x.parallax_x as i64, x.parallax_y as i64,
+                     x.start_layer as i64, x.num_layers as i64]
+            });
+            part::<MapItemGroupV2, _>(out, ok, "GroupV2", k, d, |x| {
+                vec![x.use_clipping as i64, x.clip_x as i64, x.clip_y as i64, x.clip_w as i64, x.clip_h as i64]
+            });
+            part::<MapItemGroupV3, _>(out, ok, "GroupV3", k, d, |x| x.name.iter().map(|&y| y as i64).collect());
+        }
+        MAP_ITEMTYPE_LAYER => {
+            part::<MapItemLayerV1, _>(out, ok, "LayerV1", k, d, |x| vec![x.type_ as i64, x.flags as i64]);
+            if let Ok(Some((_, rest))) = MapItemLayerV1::from_slice_rest(d) {
+                part::<MapItemLayerV1CommonV0, _>(out, ok, "LayerV1CommonV0", k, rest, |x| vec![x.version as i64]);
+                part::<MapItemLayerV1TilemapV1, _>(out, ok, "LayerV1TilemapV1", k, rest, |_| vec![]);
+                part::<MapItemLayerV1TilemapV2, _>(out, ok, "LayerV1TilemapV2", k, rest, |x| {
+                    vec![x.width as i64, x.height as i64, x.flags as i64, x.color_red as i64, x.color_green as i64,
+                         x.color_blue as i64, x.color_alpha as i64, x.color_env as i64, x.color_env_offset as i64,
+                         x.image as i64, x.data as i64]
+                });
+                part::<MapItemLayerV1TilemapV3, _>(out, ok, "LayerV1TilemapV3", k, rest, |x| {
+                    x.name.iter().map(|&y| y as i64).collect()
+                });
+                part::<MapItemLayerV1QuadsV1, _>(out, ok, "LayerV1QuadsV1", k, rest, |x| {
+                    vec![x.num_quads as i64, x.data as i64, x.image as i64]
+                });
+                part::<MapItemLayerV1QuadsV2, _>(out, ok, "LayerV1QuadsV2", k, rest, |x| {
+                    x.name.iter().map(|&y| y as i64).collect()
+                });
+                part::<MapItemLayerV1DdraceSoundsV1, _>(out, ok, "LayerV1DdraceSoundsV1", k, rest, |x| {
+                    let mut v = vec![x.num_sources as i64, x.data as i64, x.sound as i64];
+                    v.extend(x.name.iter().map(|&y| y as i64));
+                    v
+                });
+                part::<MapItemLayerV1DdraceSoundsV2, _>(out, ok, "LayerV1DdraceSoundsV2", k, rest, |_| vec![]);
+                if !rest.is_empty() {
+                    for flags in [1u32, 2, 4, 8, 16, 32] {
+                        let (r, val) = match MapItemLayerV1TilemapExtraRace::from_slice(rest, rest[0], flags) {
+                            Some(x) => ("some", vec![x.data as i64]),
+                            None => ("none", vec![]),
+                        };
+                        out.push(json!({"f": "ExtraRace", "a": k, "x": flags, "r": r, "val": val}));
+                    }
+                }
+            }
+        }
+        MAP_ITEMTYPE_ENVPOINTS => {
+            for ev in 0..5 {
+                let (r, val) = match MapItemEnvpointV1::from_slice(d, ev) {
+                    Some(ps) => {
+                        let _ = format!("{:?}", ps);
+                        let mut v = vec![ps.len() as i64];
+                        v.extend(i32s_of(ps));
+                        ("some", v)
+                    }
+                    None => ("none", vec![]),
+                };
+                out.push(json!({"f": "EnvpointV1", "a": k, "x": ev, "r": r, "val": val}));
+                let (r, val) = match MapItemEnvpointV2::from_slice(d, ev) {
+                    Some(ps) => {
+                        let _ = format!("{:?}", ps);
+                        let mut v = vec![ps.len() as i64];
+                        v.extend(i32s_of(ps));
+                        ("some", v)
+                    }
+                    None => ("none", vec![]),
+                };
+                out.push(json!({"f": "EnvpointV2", "a": k, "x": ev, "r": r, "val": val}));
+            }
+        }
+        MAP_ITEMTYPE_DDRACE_SOUND => {
+            part::<MapItemDdraceSoundV1, _>(out, ok, "DdraceSoundV1", k, d, |x| {
+                vec![x.external as i64, x.name as i64, x.data as i64, x.data_size as i64]
+            });
+        }
+        _ => {}
+    }
+}
+
+// ------------------------------------------------------------------ the reader's accessors
 
 pub fn observe_map(path: &Path) -> Value {
     let mut c = Calls { v: Vec::new(), panics: Vec::new() };
     let opened = guarded(20_000, || reader::Reader::open(path));
     let mut r = match opened {
         Ok(Ok(r)) => r,
-        Ok(Err(_)) => return json!({"open": "err", "calls": [], "panics": [], "nd": 0, "rng": {}}),
+        Ok(Err(_)) => {
+            return json!({"open": "err", "calls": [], "panics": [], "nd": 0, "rng": {}, "parts": [],
+                          "redundant_ok": true})
+        }
         Err(msg) => {
-            return json!({"open": "panic", "calls": [], "nd": 0, "rng": {},
+            return json!({"open": "panic", "calls": [], "nd": 0, "rng": {}, "parts": [], "redundant_ok": true,
                           "panics": [{"f": "open", "a": 0, "msg": msg, "loc": crate::rel_loc(&last_panic_location())}]})
         }
     };
@@ -73,12 +371,34 @@ pub fn observe_map(path: &Path) -> Value {
         "sound": rng_of(format::MAP_ITEMTYPE_DDRACE_SOUND),
     });
     let image_indices = r.reader.item_type_indices(format::MAP_ITEMTYPE_IMAGE);
+    let layer_indices = r.reader.item_type_indices(format::MAP_ITEMTYPE_LAYER);
 
-    c.call("check_version", 0, || r.check_version().map(|()| vec![]).map_err(e));
-    c.call("version", 0, || r.version().map(|_| vec![]).map_err(e));
-    let mut strings: BTreeSet<usize> = BTreeSet::new();
-    let mut settings: BTreeSet<usize> = BTreeSet::new();
-    let mut info = None;
+    // the item structs on every item of their type (pure functions of the item's words)
+    let mut parts: Vec<Value> = Vec::new();
+    let mut redundant_ok = true;
+    let items: Vec<(u16, Vec<i32>)> = r.reader.items().map(|it| (it.type_id, it.data.to_vec())).collect();
+    for (k, (t, d)) in items.iter().enumerate() {
+        let res = guarded(20_000, || {
+            let mut out = Vec::new();
+            let mut ok = true;
+            parts_of_item(&mut out, &mut ok, k, *t, d);
+            (out, ok)
+        });
+        match res {
+            Ok((out, ok)) => {
+                parts.extend(out);
+                redundant_ok &= ok;
+            }
+            Err(msg) => {
+                let loc = crate::rel_loc(&last_panic_location());
+                c.v.push(json!({"f": "format", "a": k, "out": "panic", "val": [], "idx": []}));
+                c.panics.push(json!({"f": "format", "a": k, "msg": msg, "loc": loc}));
+            }
+        }
+    }
+
+    c.call("check_version", 0, || r.check_version().map(|()| (json!([]), vec![])).map_err(e));
+    c.call("version", 0, || r.version().map(|v| (json!([v]), vec![])).map_err(e));
     c.call("info", 0, || {
         let i = r.info().map_err(e)?;
         let mut out = vec![];
@@ -87,133 +407,124 @@ pub fn observe_map(path: &Path) -> Value {
         opt("data", i.credits, &mut out);
         opt("data", i.license, &mut out);
         opt("data", i.settings, &mut out);
-        info = Some(i);
-        Ok(out)
+        Ok((json!([o2i(i.author), o2i(i.version), o2i(i.credits), o2i(i.license), o2i(i.settings)]), out))
     });
-    if let Some(i) = info {
-        for x in [i.author, i.version, i.credits, i.license].iter().flatten() {
-            strings.insert(*x);
-        }
-        if let Some(s) = i.settings {
-            settings.insert(s);
-        }
-    }
-    // images
-    let mut image_data: BTreeSet<usize> = BTreeSet::new();
-    let mut image_names: BTreeSet<usize> = BTreeSet::new();
     for i in image_indices {
-        let mut got = None;
         c.call("image", i as i64, || {
             let im = r.image(i).map_err(e)?;
             let mut out = vec![("data", im.name as i64)];
             opt("data", im.data, &mut out);
-            got = Some((im.name, im.data, im.width, im.height));
-            Ok(out)
+            Ok((json!([im.width, im.height, im.name, o2i(im.data)]), out))
         });
-        if let Some((n, d, _, _)) = got {
-            image_names.insert(n);
-            if let Some(d) = d {
-                image_data.insert(d);
-            }
-        }
     }
-    // groups and their layers
-    let mut tiles: Vec<(usize, reader::LayerTilemap, &'static str)> = Vec::new();
+    // groups and their layers (the walk follows what the reader hands out), then the layer items
+    // no group refers to
+    let mut tiles: Vec<(usize, usize, reader::LayerTilemap, &'static str)> = Vec::new();
+    let mut visited: BTreeSet<usize> = BTreeSet::new();
+    let mut to_visit: Vec<usize> = Vec::new();
     for gi in r.group_indices() {
         let mut layers = 0..0;
         c.call("group", gi as i64, || {
             let g = r.group(gi).map_err(e)?;
             layers = g.layer_indices.clone();
-            Ok(vec![("layer_lo", g.layer_indices.start as i64), ("layer_hi", g.layer_indices.end as i64)])
+            Ok((json!(group_val(&g)),
+                vec![("layer_lo", g.layer_indices.start as i64), ("layer_hi", g.layer_indices.end as i64)]))
         });
         // a group must only hand out layer items; if it hands out more (MapTrace rejects that),
         // the walk still stays inside the item table
         let lim = r.reader.num_items();
         for li in layers.start.min(lim)..layers.end.min(lim) {
-            let mut tm = None;
-            c.call("layer", li as i64, || {
-                let l = r.layer(li).map_err(e)?;
-                let mut out = vec![];
-                match l.t {
-                    LayerType::Quads(q) => {
-                        out.push(("data", q.data as i64));
-                        opt("image", q.image, &mut out);
-                    }
-                    LayerType::DdraceSounds(s) => {
-                        out.push(("data", s.data as i64));
-                        opt("sound", s.sound, &mut out);
-                    }
-                    LayerType::Tilemap(t) => {
-                        match t.type_ {
-                            LayerTilemapType::Normal(n) => {
-                                out.push(("data", n.data as i64));
-                                opt("image", n.image, &mut out);
-                                if let Some((env, _)) = n.color_env_and_offset {
-                                    out.push(("envelope", env as i64));
-                                }
-                                tm = Some((n.data, t, "tiles"));
-                            }
-                            LayerTilemapType::Game(d) => {
-                                out.push(("data", d as i64));
-                                tm = Some((d, t, "tiles"));
-                            }
-                            LayerTilemapType::RaceTeleport(d, z) => {
-                                out.push(("data", d as i64));
-                                out.push(("data", z as i64));
-                                tm = Some((d, t, "tele"));
-                            }
-                            LayerTilemapType::RaceSpeedup(d, z) => {
-                                out.push(("data", d as i64));
-                                out.push(("data", z as i64));
-                                tm = Some((d, t, "speedup"));
-                            }
-                            LayerTilemapType::DdraceFront(d, z) => {
-                                out.push(("data", d as i64));
-                                out.push(("data", z as i64));
-                                tm = Some((d, t, "tiles"));
-                            }
-                            LayerTilemapType::DdraceSwitch(d, z) => {
-                                out.push(("data", d as i64));
-                                out.push(("data", z as i64));
-                                tm = Some((d, t, "switch"));
-                            }
-                            LayerTilemapType::DdraceTune(d, z) => {
-                                out.push(("data", d as i64));
-                                out.push(("data", z as i64));
-                                tm = Some((d, t, "tune"));
-                            }
-                        }
-                        if let Some(d) = t.type_.tiles() {
-                            out.push(("data", d as i64));
-                        }
-                        let _ = t.type_.to_normal();
-                    }
+            to_visit.push(li);
+        }
+    }
+    to_visit.extend(layer_indices);
+    for li in to_visit {
+        if !visited.insert(li) {
+            continue;
+        }
+        let mut tm = None;
+        c.call("layer", li as i64, || {
+            let l = r.layer(li).map_err(e)?;
+            let mut out = vec![];
+            match l.t {
+                LayerType::Quads(q) => {
+                    out.push(("data", q.data as i64));
+                    opt("image", q.image, &mut out);
                 }
-                Ok(out)
-            });
-            if let Some(x) = tm {
-                tiles.push(x);
+                LayerType::DdraceSounds(s) => {
+                    out.push(("data", s.data as i64));
+                    opt("sound", s.sound, &mut out);
+                }
+                LayerType::Tilemap(t) => {
+                    match t.type_ {
+                        LayerTilemapType::Normal(n) => {
+                            out.push(("data", n.data as i64));
+                            opt("image", n.image, &mut out);
+                            if let Some((env, _)) = n.color_env_and_offset {
+                                out.push(("envelope", env as i64));
+                            }
+                            tm = Some((n.data, t, "tiles"));
+                        }
+                        LayerTilemapType::Game(d) => {
+                            out.push(("data", d as i64));
+                            tm = Some((d, t, "tiles"));
+                        }
+                        LayerTilemapType::RaceTeleport(d, z) => {
+                            out.push(("data", d as i64));
+                            out.push(("data", z as i64));
+                            tm = Some((d, t, "tele"));
+                        }
+                        LayerTilemapType::RaceSpeedup(d, z) => {
+                            out.push(("data", d as i64));
+                            out.push(("data", z as i64));
+                            tm = Some((d, t, "speedup"));
+                        }
+                        LayerTilemapType::DdraceFront(d, z) => {
+                            out.push(("data", d as i64));
+                            out.push(("data", z as i64));
+                            tm = Some((d, t, "tiles"));
+                        }
+                        LayerTilemapType::DdraceSwitch(d, z) => {
+                            out.push(("data", d as i64));
+                            out.push(("data", z as i64));
+                            tm = Some((d, t, "switch"));
+                        }
+                        LayerTilemapType::DdraceTune(d, z) => {
+                            out.push(("data", d as i64));
+                            out.push(("data", z as i64));
+                            tm = Some((d, t, "tune"));
+                        }
+                    }
+                    if let Some(d) = t.type_.tiles() {
+                        out.push(("data", d as i64));
+                    }
+                    let _ = t.type_.to_normal();
+                }
             }
+            Ok((json!(layer_val(&l)), out))
+        });
+        if let Some((d, t, kind)) = tm {
+            tiles.push((li, d, t, kind));
         }
     }
     // typed tile arrays of the layers found, through the layer's own LayerTilesIndex
-    for (d, t, kind) in tiles {
-        let a = d as i64;
+    for (li, d, t, kind) in tiles {
+        let a = li as i64;
         match kind {
             "tele" => {
-                c.call("tele_layer_tiles", a, || r.tele_layer_tiles(t.tiles(d)).map(|_| vec![]).map_err(e));
+                c.call("tiles", a, || r.tele_layer_tiles(t.tiles(d)).map(|x| (array_val!(&x), vec![])).map_err(e));
             }
             "speedup" => {
-                c.call("speedup_layer_tiles", a, || r.speedup_layer_tiles(t.tiles(d)).map(|_| vec![]).map_err(e));
+                c.call("tiles", a, || r.speedup_layer_tiles(t.tiles(d)).map(|x| (array_val!(&x), vec![])).map_err(e));
             }
             "switch" => {
-                c.call("switch_layer_tiles", a, || r.switch_layer_tiles(t.tiles(d)).map(|_| vec![]).map_err(e));
+                c.call("tiles", a, || r.switch_layer_tiles(t.tiles(d)).map(|x| (array_val!(&x), vec![])).map_err(e));
             }
             "tune" => {
-                c.call("tune_layer_tiles", a, || r.tune_layer_tiles(t.tiles(d)).map(|_| vec![]).map_err(e));
+                c.call("tiles", a, || r.tune_layer_tiles(t.tiles(d)).map(|x| (array_val!(&x), vec![])).map_err(e));
             }
             _ => {
-                c.call("layer_tiles", a, || r.layer_tiles(t.tiles(d)).map(|_| vec![]).map_err(e));
+                c.call("tiles", a, || r.layer_tiles(t.tiles(d)).map(|x| (array_val!(&x), vec![])).map_err(e));
             }
         }
     }
@@ -229,58 +540,147 @@ pub fn observe_map(path: &Path) -> Value {
         opt("data", g.tune_raw, &mut out);
         out.push(("layer_lo", g.group.layer_indices.start as i64));
         out.push(("layer_hi", g.group.layer_indices.end as i64));
+        let mut v = group_val(&g.group);
+        v.extend_from_slice(&[g.width as i64, g.height as i64, g.game_raw as i64, o2i(g.teleport_raw),
+                              o2i(g.speedup_raw), o2i(g.front_raw), o2i(g.switch_raw), o2i(g.tune_raw)]);
         gl = Some(g);
-        Ok(out)
+        Ok((json!(v), out))
     });
     if let Some(g) = gl {
-        c.call("gl.game", 0, || r.layer_tiles(g.game()).map(|_| vec![]).map_err(e));
+        c.call("gl.game", 0, || r.layer_tiles(g.game()).map(|x| (array_val!(&x), vec![])).map_err(e));
         if let Some(i) = g.front() {
-            c.call("gl.front", 0, || r.layer_tiles(i).map(|_| vec![]).map_err(e));
+            c.call("gl.front", 0, || r.layer_tiles(i).map(|x| (array_val!(&x), vec![])).map_err(e));
         }
         if let Some(i) = g.teleport() {
-            c.call("gl.teleport", 0, || r.tele_layer_tiles(i).map(|_| vec![]).map_err(e));
+            c.call("gl.teleport", 0, || r.tele_layer_tiles(i).map(|x| (array_val!(&x), vec![])).map_err(e));
         }
         if let Some(i) = g.speedup() {
-            c.call("gl.speedup", 0, || r.speedup_layer_tiles(i).map(|_| vec![]).map_err(e));
+            c.call("gl.speedup", 0, || r.speedup_layer_tiles(i).map(|x| (array_val!(&x), vec![])).map_err(e));
         }
         if let Some(i) = g.switch() {
-            c.call("gl.switch", 0, || r.switch_layer_tiles(i).map(|_| vec![]).map_err(e));
+            c.call("gl.switch", 0, || r.switch_layer_tiles(i).map(|x| (array_val!(&x), vec![])).map_err(e));
         }
         if let Some(i) = g.tune() {
-            c.call("gl.tune", 0, || r.tune_layer_tiles(i).map(|_| vec![]).map_err(e));
+            c.call("gl.tune", 0, || r.tune_layer_tiles(i).map(|x| (array_val!(&x), vec![])).map_err(e));
         }
     }
     // every data block through every data-consuming accessor (indices below num_data)
     for d in 0..nd {
         let a = d as i64;
-        c.call("string", a, || r.string(d).map(|_| vec![]).map_err(e));
+        c.call("string", a, || r.string(d).map(|s| (json!(s), vec![])).map_err(e));
         c.call("settings", a, || {
             let s = r.settings(d).map_err(e)?;
-            let _n = s.iter().count();
-            Ok(vec![])
+            let cmds: Vec<Vec<u8>> = s.iter().map(|x| x.to_vec()).collect();
+            Ok((json!(cmds), vec![]))
         });
-        c.call("image_name", a, || r.image_name(d).map(|_| vec![]).map_err(e));
-        c.call("image_data", a, || r.image_data(d).map(|_| vec![]).map_err(e));
-        c.call("layer_tiles_raw", a, || r.layer_tiles_raw(d).map(|_| vec![]).map_err(e));
-        c.call("tele_layer_tiles_raw", a, || r.tele_layer_tiles_raw(d).map(|_| vec![]).map_err(e));
-        c.call("speedup_layer_tiles_raw", a, || r.speedup_layer_tiles_raw(d).map(|_| vec![]).map_err(e));
-        c.call("switch_layer_tiles_raw", a, || r.switch_layer_tiles_raw(d).map(|_| vec![]).map_err(e));
-        c.call("tune_layer_tiles_raw", a, || r.tune_layer_tiles_raw(d).map(|_| vec![]).map_err(e));
+        c.call("image_name", a, || r.image_name(d).map(|s| (json!(s), vec![])).map_err(e));
+        c.call("image_data", a, || r.image_data(d).map(|s| (json!(s), vec![])).map_err(e));
+        c.call("layer_tiles_raw", a, || r.layer_tiles_raw(d).map(|t| (raw_val(&t), vec![])).map_err(e));
+        c.call("tele_layer_tiles_raw", a, || r.tele_layer_tiles_raw(d).map(|t| (raw_val(&t), vec![])).map_err(e));
+        c.call("speedup_layer_tiles_raw", a, || r.speedup_layer_tiles_raw(d).map(|t| (raw_val(&t), vec![])).map_err(e));
+        c.call("switch_layer_tiles_raw", a, || r.switch_layer_tiles_raw(d).map(|t| (raw_val(&t), vec![])).map_err(e));
+        c.call("tune_layer_tiles_raw", a, || r.tune_layer_tiles_raw(d).map(|t| (raw_val(&t), vec![])).map_err(e));
     }
-    let _ = (strings, settings, image_data, image_names);
-    json!({"open": "ok", "nd": nd, "rng": rng, "calls": c.v, "panics": c.panics})
+    json!({"open": "ok", "nd": nd, "rng": rng, "calls": c.v, "panics": c.panics, "parts": parts,
+           "redundant_ok": redundant_ok})
 }
 
-fn one_case(case: &Value, path: &Path) -> Value {
+// ------------------------------------------------------------------ comparison with the spec's expectation
+
+fn key3(o: &Value) -> (String, i64, i64) {
+    (o["f"].as_str().unwrap_or("").to_string(), o["a"].as_i64().unwrap_or(-1), o["x"].as_i64().unwrap_or(0))
+}
+
+/// Differences between what Map.tla expects (`exp`: calls, `parts`) and what was observed.
+pub fn compare(case: &Value, obs: &Value) -> Vec<Value> {
+    let mut out = Vec::new();
+    if case["exp"].is_null() {
+        return out;
+    }
+    if obs["open"] != "ok" {
+        out.push(json!({"what": "open", "f": "open", "a": 0, "exp": "ok", "act": obs["open"]}));
+        return out;
+    }
+    let mut act: BTreeMap<(String, i64, i64), &Value> = BTreeMap::new();
+    for c in obs["calls"].as_array().unwrap() {
+        act.entry(key3(c)).or_insert(c);
+    }
+    for x in case["exp"].as_array().unwrap() {
+        match act.get(&key3(x)) {
+            None => out.push(json!({"what": "not-called", "f": x["f"], "a": x["a"], "exp": x["out"], "act": "-"})),
+            Some(c) => {
+                if c["out"] == "panic" {
+                    continue; // reported as a panic
+                }
+                if c["out"] != x["out"] {
+                    out.push(json!({"what": "out", "f": x["f"], "a": x["a"], "exp": x["out"], "act": c["out"]}));
+                } else if x["out"] == "ok" && c["val"] != x["val"] {
+                    out.push(json!({"what": "val", "f": x["f"], "a": x["a"], "exp": x["val"], "act": c["val"]}));
+                }
+            }
+        }
+    }
+    let mut actp: BTreeMap<(String, i64, i64), &Value> = BTreeMap::new();
+    for c in obs["parts"].as_array().unwrap() {
+        actp.insert(key3(c), c);
+    }
+    let fpanic = obs["calls"].as_array().unwrap().iter().any(|c| c["f"] == "format" && c["out"] == "panic");
+    for x in case["parts"].as_array().unwrap() {
+        match actp.get(&key3(x)) {
+            None => {
+                if !fpanic {
+                    out.push(json!({"what": "part-not-called", "f": x["f"], "a": x["a"], "x": x["x"], "exp": x["r"], "act": "-"}))
+                }
+            }
+            Some(c) => {
+                if c["r"] != x["r"] {
+                    out.push(json!({"what": "part-r", "f": x["f"], "a": x["a"], "x": x["x"], "exp": x["r"], "act": c["r"]}));
+                } else if c["val"] != x["val"] {
+                    out.push(json!({"what": "part-val", "f": x["f"], "a": x["a"], "x": x["x"], "exp": x["val"], "act": c["val"]}));
+                }
+            }
+        }
+    }
+    if obs["redundant_ok"] == Value::Bool(false) {
+        out.push(json!({"what": "redundant", "f": "from_slice*", "a": 0, "exp": "agree", "act": "differ"}));
+    }
+    out
+}
+
+/// The event for MapTrace.tla: calls that are trivially accepted (ok/err without indices) are
+/// counted, not listed.
+fn trace_event(obs: &Value, case: &Value, file_len: usize) -> Value {
+    let calls = obs["calls"].as_array().cloned().unwrap_or_default();
+    let mut kept = Vec::new();
+    let (mut n_ok, mut n_err) = (0u64, 0u64);
+    for c in &calls {
+        let trivial = (c["out"] == "ok" || c["out"] == "err") && c["idx"].as_array().map(|a| a.is_empty()).unwrap_or(true);
+        if c["out"] == "ok" {
+            n_ok += 1;
+        } else if c["out"] == "err" {
+            n_err += 1;
+        }
+        if !trivial {
+            kept.push(json!({"f": c["f"], "a": c["a"], "out": c["out"], "idx": c["idx"]}));
+        }
+    }
+    json!({"open": obs["open"], "nd": obs["nd"], "rng": obs["rng"], "calls": kept, "n_ok": n_ok, "n_err": n_err,
+           "panics": obs["panics"], "sw": case["sw"], "v": case["v"], "file_len": file_len})
+}
+
+pub struct Outcome {
+    pub event: Value,
+    pub obs: Value,
+    pub mismatches: Vec<Value>,
+}
+
+fn one_case(case: &Value, path: &Path) -> Outcome {
     let bytes = write_layout(&case["L"]);
     std::fs::write(path, &bytes).unwrap();
-    vh_common::set_case(&json!({"kind": "map", "sw": case["sw"], "v": case["v"]}).to_string());
-    let mut o = observe_map(path);
-    let m = o.as_object_mut().unwrap();
-    m.insert("sw".to_string(), case["sw"].clone());
-    m.insert("v".to_string(), case["v"].clone());
-    m.insert("file_len".to_string(), json!(bytes.len()));
-    o
+    vh_common::set_case(&json!({"kind": "map", "sw": case["sw"], "v": case["v"], "p": case["p"]}).to_string());
+    let obs = observe_map(path);
+    let mismatches = compare(case, &obs);
+    Outcome { event: trace_event(&obs, case, bytes.len()), obs, mismatches }
 }
 
 pub fn cmd_map_replay(workdir: &str, out_path: &str) {
@@ -290,10 +690,14 @@ pub fn cmd_map_replay(workdir: &str, out_path: &str) {
     // side file with the generated cases (field values), line n = event n; not read by TLC
     let mut cases_out = std::io::BufWriter::new(std::fs::File::create(format!("{}.cases", out_path)).unwrap());
     let stdin = std::io::stdin();
-    let (mut n, mut panics, mut calls) = (0u64, 0u64, 0u64);
+    let (mut n, mut panics, mut calls, mut nparts, mut n_wf, mut n_valid, mut n_mis) = (0u64, 0u64, 0u64, 0u64, 0u64, 0u64, 0u64);
     let mut tlc_tail: Vec<String> = Vec::new();
     let mut shapes: BTreeSet<String> = BTreeSet::new();
     let mut first_panics: Vec<Value> = Vec::new();
+    let mut by_kind: BTreeMap<String, u64> = BTreeMap::new();
+    let mut exp_seen: BTreeMap<String, u64> = BTreeMap::new();
+    let mut groups: BTreeMap<String, (u64, Value)> = BTreeMap::new();
+    let mut sample: Option<Value> = None;
     for line in stdin.lock().lines() {
         let line = match line {
             Ok(l) => l,
@@ -303,28 +707,73 @@ pub fn cmd_map_replay(workdir: &str, out_path: &str) {
             let parts = vh_common::parse_tlc_tuple(&line).unwrap_or_default();
             if parts.len() == 2 {
                 if let Ok(case) = serde_json::from_str::<Value>(&parts[1]) {
-                    let ev = one_case(&case, &path);
+                    let oc = one_case(&case, &path);
                     n += 1;
-                    calls += ev["calls"].as_array().map(|a| a.len()).unwrap_or(0) as u64;
+                    let ev = &oc.event;
+                    let all = oc.obs["calls"].as_array().map(|a| a.len()).unwrap_or(0) as u64;
+                    calls += all;
+                    nparts += oc.obs["parts"].as_array().map(|a| a.len()).unwrap_or(0) as u64;
+                    if case["wf"] == Value::Bool(true) {
+                        n_wf += 1;
+                    }
+                    if case["valid"] == Value::Bool(true) {
+                        n_valid += 1;
+                    }
+                    *by_kind.entry(case["sw"]["kind"].as_str().unwrap_or("?").to_string()).or_insert(0) += 1;
+                    // which expected outcomes occurred (vacuity check of the enumeration)
+                    for x in case["exp"].as_array().map(|a| a.as_slice()).unwrap_or(&[]) {
+                        let k = format!("{}:{}", x["f"].as_str().unwrap_or("?"), x["out"].as_str().unwrap_or("?"));
+                        *exp_seen.entry(k).or_insert(0) += 1;
+                        if x["f"] == "layer" && x["out"] == "ok" {
+                            let v = &x["val"];
+                            let k = if v[1] == 2 { format!("layer-kind:tilemap:{}", v[4]) } else { format!("layer-kind:{}", v[1]) };
+                            *exp_seen.entry(k).or_insert(0) += 1;
+                        }
+                    }
+                    for x in case["parts"].as_array().map(|a| a.as_slice()).unwrap_or(&[]) {
+                        let k = format!("part:{}:{}", x["f"].as_str().unwrap_or("?"), x["r"].as_str().unwrap_or("?"));
+                        *exp_seen.entry(k).or_insert(0) += 1;
+                    }
                     // distinct outcome shapes: the sequence of (accessor, ok/err)
-                    let shape: String = ev["calls"]
+                    let shape: String = oc.obs["calls"]
                         .as_array()
                         .map(|a| a.iter().map(|c| format!("{}:{};", c["f"].as_str().unwrap_or(""), c["out"].as_str().unwrap_or(""))).collect())
                         .unwrap_or_default();
                     shapes.insert(shape);
                     let np = ev["panics"].as_array().map(|a| a.len()).unwrap_or(0) as u64;
                     if np > 0 && first_panics.len() < 50 {
-                        first_panics.push(json!({"case": case, "panics": ev["panics"]}));
+                        first_panics.push(json!({"sw": case["sw"], "panics": ev["panics"]}));
                     }
                     panics += np;
+                    for m in &oc.mismatches {
+                        n_mis += 1;
+                        let cls = if case["wf"] == Value::Bool(true) {
+                            "wf"
+                        } else if case["valid"] == Value::Bool(true) {
+                            "valid"
+                        } else {
+                            "other"
+                        };
+                        let k = format!("{}|{}|{}|{}", cls, m["what"].as_str().unwrap_or("?"), m["f"].as_str().unwrap_or("?"),
+                                        case["sw"]["kind"].as_str().unwrap_or("?"));
+                        let g = groups.entry(k).or_insert_with(|| (0, json!({"m": m, "case": case})));
+                        g.0 += 1;
+                    }
+                    if sample.is_none() && case["wf"] == Value::Bool(true) {
+                        sample = Some(json!({"p": case["p"], "calls": oc.obs["calls"].as_array().map(|a| a.iter().take(12)
+                            .map(|c| format!("{}({})={} {}", c["f"].as_str().unwrap_or(""), c["a"], c["out"].as_str().unwrap_or(""), c["val"]))
+                            .collect::<Vec<_>>())}));
+                    }
                     writeln!(out, "{}", ev).unwrap();
-                    writeln!(cases_out, "{}", case).unwrap();
+                    // (the expectations are large: the side file keeps what identifies the case)
+                    writeln!(cases_out, "{}", json!({"kind": "map", "v": case["v"], "p": case["p"], "sw": case["sw"],
+                        "wf": case["wf"], "valid": case["valid"], "L": case["L"]})).unwrap();
                     continue;
                 }
             }
             println!("{}", json!({"kind": "bad-line"}));
         } else if !line.trim().is_empty() {
-            tlc_tail.push(line);
+            tlc_tail.push(line.chars().take(2000).collect());
             if tlc_tail.len() > 40 {
                 tlc_tail.remove(0);
             }
@@ -334,15 +783,22 @@ pub fn cmd_map_replay(workdir: &str, out_path: &str) {
     cases_out.flush().unwrap();
     let _ = std::fs::remove_file(&path);
     println!("{}", json!({"kind": "tlc", "tail": tlc_tail}));
-    println!("{}", json!({"kind": "summary", "cases": n, "calls": calls, "panics": panics,
-                          "distinct_outcome_shapes": shapes.len(), "first_panics": first_panics}));
+    for (k, (cnt, first)) in &groups {
+        println!("{}", json!({"kind": "map-mismatch", "group": k, "n": cnt, "first": first}));
+    }
+    println!("{}", json!({"kind": "summary", "cases": n, "calls": calls, "parts": nparts, "panics": panics, "wf": n_wf,
+                          "valid": n_valid, "mismatches": n_mis, "by_kind": by_kind, "exp_seen": exp_seen,
+                          "distinct_outcome_shapes": shapes.len(), "first_panics": first_panics, "sample": sample}));
 }
 
 pub fn replay_one(workdir: &str, case: &Value, out: &mut dyn Write) {
     std::fs::create_dir_all(workdir).unwrap();
     let path = Path::new(workdir).join(format!("map-{}.map", std::process::id()));
-    let ev = one_case(case, &path);
+    let oc = one_case(case, &path);
     let _ = std::fs::remove_file(&path);
     let _ = geti;
-    writeln!(out, "{}", json!({"kind": "map-observed", "event": ev})).unwrap();
+    for m in &oc.mismatches {
+        writeln!(out, "{}", json!({"kind": "map-mismatch-one", "m": m})).unwrap();
+    }
+    writeln!(out, "{}", json!({"kind": "map-observed", "event": oc.event})).unwrap();
 }
